@@ -1765,10 +1765,35 @@ func (c *Ctx) c07LayoutByContent(decided []string) {
 		for _, ef := range c.familyOf(t0.enc) {
 			twoWay[recvName(ef)] = true
 		}
-		for _, fn := range c.familyOf(t0.parse) {
-			if !twoWay[recvName(fn)] {
-				continue
+		// the part of the parser's family that is reached through two-way functions only (a plain helper below a
+		// decoder-only type belongs to that type)
+		var reach []*ssa.Function
+		{
+			seenF := map[*ssa.Function]bool{t0.parse: true}
+			work := []*ssa.Function{t0.parse}
+			for depth := 0; len(work) > 0 && depth < 4; depth++ {
+				var next []*ssa.Function
+				for _, f := range work {
+					reach = append(reach, f)
+					for _, b := range f.Blocks {
+						for _, ins := range b.Instrs {
+							ci, ok := ins.(ssa.CallInstruction)
+							if !ok {
+								continue
+							}
+							sc := ci.Common().StaticCallee()
+							if sc == nil || seenF[sc] || sc.Pkg != f.Pkg || len(sc.Blocks) == 0 || !twoWay[recvName(sc)] {
+								continue
+							}
+							seenF[sc] = true
+							next = append(next, sc)
+						}
+					}
+				}
+				work = next
 			}
+		}
+		for _, fn := range reach {
 			var fromBody func(v ssa.Value, d int) bool
 			fromBody = func(v ssa.Value, d int) bool {
 				if d > 8 {
